@@ -235,6 +235,8 @@ OPEN = [
     ("byza", "MC_DposLib_byza.cfg", "Agreement", "two nodes hold conflicting irreversible blocks, 1 of 4 producers Byzantine"),
     # finding F5 (UNSAVED): the LIB raised by the Update calls of a reorganisation that is given up is not saved
     ("unsaved", "MC_DposLib_unsaved.cfg", "RestoreEqualsRecompute", "abandoned reorganisation raises the LIB in memory only; a restart brings the older LIB back"),
+    # finding F6 (STALE2): a proposal made by the valid prefix of a reorganisation that is given up survives
+    ("stale2", "MC_DposLib_stale2.cfg", "ProposalsOnMain", "the valid prefix of an abandoned reorganisation leaves a proposal that is not on the main chain"),
 ]
 # The model of the code BEFORE the repairs b495bde5 / a4f2be36 / c846cf0d (Fixes = {}): documented counterexamples, run in the
 # thorough tier for the record only (a self-test of the Fixes switches); they are not replayed and cannot change the verdict
@@ -271,7 +273,8 @@ def run(c):
                   ("t4e", "MC_DposLib_T4e.cfg", "tree T4e (fork exactly at the LIB block), 2 restarts: all properties"),
                   ("t3w", "MC_DposLib_T3w.cfg", "tree T3w (chain longer than the rebuild window, fork at the tip), 2 restarts: all properties"),
                   ("t4i", "MC_DposLib_T4i.cfg", "trees T4i (longer branch with a block that fails in execute() at its 1st/2nd/3rd position; in order and children first), no restart: all properties"),
-                  ("t4ii", "MC_DposLib_T4i_intended.cfg", "PROPOSED repair 'persist' (status saved after a failed block): trees T4i, 2 restarts: all properties")]
+                  ("t4ii", "MC_DposLib_T4i_intended.cfg", "PROPOSED repairs persist + onchain: trees T4i, 2 restarts: all properties"),
+                  ("t4ji", "MC_DposLib_T4j_intended.cfg", "PROPOSED repairs persist + onchain: tree T4j, 2 restarts: all properties")]
     jobs = [(k, cfg, 3 if k == "mc" else 1, 1700, None) for (k, cfg, _) in CLEAN]
     jobs += [(k, cfg, 1, 900, None) for (k, cfg, _) in GENS]
     jobs += [
@@ -282,6 +285,7 @@ def run(c):
     if not quick:
         jobs += [(k, cfg, 1, 600, None) for (k, cfg, _, _) in HISTORIC]
         jobs.append(("genfull", "Gen_DposLib_full.cfg", 1, 1500, None))
+        jobs.append(("simint", "Sim_DposLib4i_intended.cfg", 2, 1500, ["-simulate", "num=1500", "-depth", "70", "-seed", str(c.seed * 7919 + 7)]))
         jobs.append(("simdeep", "Sim_DposLib4.cfg", 3, 1500, ["-simulate", "num=5000", "-depth", "70", "-seed", str(c.seed * 7919 + 5)]))
     with concurrent.futures.ThreadPoolExecutor(max_workers=2) as ex:
         fb = ex.submit(build_harness, c)
@@ -297,6 +301,10 @@ def run(c):
             c.add_tlc(r, "simulation, 5000 more behaviours: 4 producers, 1 equivocating, 3 correct nodes, 2 restarts: all properties")
             if "Error:" in r.out:
                 raise vlib.Infra("simulation (Sim_DposLib4.cfg, 5000 behaviours) found an error in the design:\n" + r.out[-3000:])
+            r = R["simint"]
+            c.add_tlc(r, "design WITH the proposed repairs persist + onchain, simulation with blocks that fail in execute(), 1500 behaviours: all properties")
+            if "Error:" in r.out:
+                raise vlib.Infra("simulation (Sim_DposLib4i_intended.cfg) found an error in the design:\n" + r.out[-3000:])
             for (k, cfg, prop, what) in HISTORIC:
                 r = R[k]
                 c.add_tlc(r, "model of the code BEFORE the repairs, for the record: counterexample to %s (%s)" % (prop, what))
